@@ -34,6 +34,15 @@ class HarnessError(Exception):
     """Raised for errors of the machinery itself (exit code 2, never a VIOLATION)."""
 
 
+class KawinRefusal(Exception):
+    """Raised by a harness when kawin deliberately rejects (a `raise` in kawin) a configuration the harness can show to be admissible
+    by the documented rule: reported as a violation of the running clause, not as a harness error."""
+
+    def __init__(self, kind, msg):
+        super().__init__(msg)
+        self.kind, self.msg = kind, msg
+
+
 class Out:
     """Outcome of checking one case."""
     __slots__ = ("viol", "labels", "nontrivial", "info")
@@ -185,6 +194,10 @@ def run_case(clause, case, findings, res):
     except HarnessError:
         sys.stdout = _so
         raise
+    except KawinRefusal as e:
+        sys.stdout = _so
+        out = Out()
+        out.fail(e.kind, e.msg)
     except Exception as e:  # an exception escaping check() is a harness error ...
         tb = traceback.format_exc()
         sys.stdout = _so
